@@ -47,7 +47,10 @@ func (b *c05Batch) Put(k, v []byte) error {
 	b.ops = append(b.ops, [2][]byte{append([]byte{}, k...), append([]byte{}, v...)})
 	return nil
 }
-func (b *c05Batch) Del(k []byte) error { b.ops = append(b.ops, [2][]byte{append([]byte{}, k...), nil}); return nil }
+func (b *c05Batch) Del(k []byte) error {
+	b.ops = append(b.ops, [2][]byte{append([]byte{}, k...), nil})
+	return nil
+}
 func (b *c05Batch) Flush() error {
 	for _, o := range b.ops {
 		if o[1] == nil {
@@ -327,6 +330,7 @@ type c05Gen struct {
 	keys  []string          // keys of state in insertion order
 	ref   map[string][]byte // content at the last `gen`
 	ops   []string
+	vals  [][]byte // small pool of values re-used across keys (byte-identical values and leaves)
 	// wild: the proof may hold an item that is not a node encoding (flipped node, raw value, value
 	// held by hash): such an item is never made the root (decoding arbitrary bytes can ask for a
 	// byte slice of up to 4 GiB, which pkg/scale allocates)
@@ -334,6 +338,47 @@ type c05Gen struct {
 }
 
 func (g *c05Gen) poolKey() []byte { return g.pool[g.r.Intn(len(g.pool))] }
+
+// value: half of the time one of the few pool values, so that several keys hold the same bytes
+func (g *c05Gen) value() []byte {
+	if len(g.vals) > 0 && g.r.Bool() {
+		return g.vals[g.r.Intn(len(g.vals))]
+	}
+	return c05Value(g.r)
+}
+
+// twin: a present key and a copy differing in ONE high nibble get the same value of >= 33 bytes:
+// two identical leaves (same partial key, same value, encoding >= 32 bytes) below different
+// branches, and under V1 two keys holding the same hashed value
+func (g *c05Gen) twin() {
+	k, ok := g.presentKey()
+	if !ok || len(k) == 0 {
+		return
+	}
+	t := append([]byte{}, k...)
+	t[g.r.Intn(len(t))] ^= byte(0x10 << uint(g.r.Intn(4)))
+	v := g.state[string(k)]
+	if len(v) < 33 {
+		v = g.vals[0]
+		g.put(k, v)
+	}
+	g.put(t, v)
+}
+
+// verifyAll: every key of the last key set against the one proof, with its true value
+func (g *c05Gen) verifyAll(genKeys []string) {
+	if genKeys[0] == "_" {
+		return
+	}
+	for _, ks := range genKeys {
+		k := vhUnhex(ks)
+		v, ok := g.ref[string(k)]
+		if !ok {
+			v = []byte{1}
+		}
+		g.ops = append(g.ops, "ver "+ks+" "+vhHex(v))
+	}
+}
 
 func (g *c05Gen) presentKey() ([]byte, bool) {
 	if len(g.keys) == 0 {
@@ -493,7 +538,7 @@ func (g *c05Gen) edit() {
 			if o, ok := g.presentKey(); ok && r.Bool() {
 				k = o
 			}
-			g.put(k, c05Value(r))
+			g.put(k, g.value())
 		}
 		kl, _ := g.keyList(1+r.Intn(2), false)
 		g.ops = append(g.ops, "genx "+kl)
@@ -531,15 +576,26 @@ func c05GenCase(r *vhRng) string {
 		}
 		g.pool = append(g.pool, k)
 	}
+	// value pool: the first value is always held by hash under V1 and makes a leaf encoding >= 32 bytes
+	g.vals = [][]byte{c05Value(r)}
+	for len(g.vals[0]) < 33 {
+		g.vals[0] = append(g.vals[0], byte(0x40+len(g.vals[0])))
+	}
+	for i := r.Intn(3); i > 0; i-- {
+		g.vals = append(g.vals, c05Value(r))
+	}
 	nput := 1 + r.Intn(8)
 	if r.Chance(1, 25) {
 		nput = 0
 	}
 	for i := 0; i < nput; i++ {
-		g.put(g.poolKey(), c05Value(r))
+		g.put(g.poolKey(), g.value())
 	}
-	// the honest proof
-	kl, allPresent := g.keyList(r.Pick(1, 1, 1, 2, 2, 3, 3, 0), false)
+	for i := r.Pick(0, 0, 1, 1, 2); i > 0 && nput > 0; i-- {
+		g.twin()
+	}
+	// the honest proof: often for a SET of keys
+	kl, allPresent := g.keyList(r.Pick(1, 1, 2, 2, 3, 3, 4, 5, 6, 0), false)
 	g.ops = append(g.ops, "gen "+kl)
 	for k, v := range g.state {
 		g.ref[k] = v
@@ -556,13 +612,17 @@ func c05GenCase(r *vhRng) string {
 			g.ops = append(g.ops, "ver "+vhHex(k)+" "+vhHex(g.claim(k)))
 		}
 	}
+	if allPresent && (len(genKeys) > 1 || r.Bool()) {
+		g.verifyAll(genKeys)
+	}
 	verify(1 + r.Intn(2))
 	if !allPresent && len(g.keys) > 0 {
 		// Generate has (most probably) failed on the absent key: go on with a proof of present keys
-		kl, _ = g.keyList(r.Pick(1, 1, 2, 3), true)
+		kl, _ = g.keyList(r.Pick(1, 2, 3, 4, 6), true)
 		g.ops = append(g.ops, "gen "+kl)
 		genKeys = strings.Split(kl, ",")
-		verify(1 + r.Intn(2))
+		g.verifyAll(genKeys)
+		verify(r.Intn(2))
 	}
 	// adversarial edits, each followed by verifications
 	for e := r.Pick(0, 1, 1, 2, 3); e > 0; e-- {
